@@ -8,7 +8,7 @@ import z3
 
 from . import drv, solve, progs_mpc, gen, mpc_common as mc, check_c06, check_c01
 from .cctypes import T
-from .common import Check, pool_map
+from .common import Check, pool_map, safe_analyze
 from .interp import Interp, Unsupported, flat_elems
 from .validate import op_name, RANDOMISING
 
@@ -51,6 +51,7 @@ def prf_nodes(g):
     return out
 
 
+@safe_analyze(lambda a: dict(id=a[0]["id"], status=None, findings=[], note="", n_prf=0, queries=0, graphs=0))
 def analyze_compiler(args):
     case, res, timeout_s = args
     out = dict(id=case["id"], status=None, findings=[], note="", n_prf=0, queries=0, graphs=0)
